@@ -26,15 +26,20 @@ pub enum Policy {
     DelayLongFlush,
     DelayLongFsync,
     DelayZeroFsync,
+    /// OnDelay with a 2 ms interval: the harness sleeps 3 ms before some calls (see
+    /// `Sut::apply`), so the delay elapses BETWEEN calls of one history and the policy
+    /// switches between "does not persist" and "persists" mid-run.
+    DelayShortFlush,
     AlwaysFlush,
     AlwaysFsync,
 }
 
-pub const ALL_POLICIES: [Policy; 6] = [
+pub const ALL_POLICIES: [Policy; 7] = [
     Policy::DoNothing,
     Policy::DelayLongFlush,
     Policy::DelayLongFsync,
     Policy::DelayZeroFsync,
+    Policy::DelayShortFlush,
     Policy::AlwaysFlush,
     Policy::AlwaysFsync,
 ];
@@ -55,6 +60,10 @@ impl Policy {
                 interval: Duration::from_secs(0),
                 action: PersistAction::FlushAndFsync,
             },
+            Policy::DelayShortFlush => PersistPolicy::OnDelay {
+                interval: Duration::from_millis(2),
+                action: PersistAction::Flush,
+            },
             Policy::AlwaysFlush => PersistPolicy::Always(PersistAction::Flush),
             Policy::AlwaysFsync => PersistPolicy::Always(PersistAction::FlushAndFsync),
         }
@@ -65,6 +74,7 @@ impl Policy {
             Policy::DelayLongFlush => "OnDelay(1h,Flush)",
             Policy::DelayLongFsync => "OnDelay(1h,FlushAndFsync)",
             Policy::DelayZeroFsync => "OnDelay(0,FlushAndFsync)",
+            Policy::DelayShortFlush => "OnDelay(2ms,Flush)+sleeps",
             Policy::AlwaysFlush => "Always(Flush)",
             Policy::AlwaysFsync => "Always(FlushAndFsync)",
         }
@@ -346,6 +356,10 @@ impl Sut {
                 Err(e) => Outcome::Err(e),
             },
             _ => {
+                if self.policy == Policy::DelayShortFlush && k % 5 == 2 {
+                    // let the 2 ms persist delay elapse before this call
+                    std::thread::sleep(Duration::from_millis(3));
+                }
                 let trace = self.trace;
                 let log = self.log.as_mut().expect("log is open");
                 if trace {
